@@ -37,6 +37,8 @@ def R(x):
         return z3.RealVal(repr(x))
     if isinstance(x, z3.ArithRef):
         return z3.ToReal(x) if x.is_int() else x
+    if type(x).__name__ == "F" and hasattr(x, "q"):          # ops.F: a concrete float held exactly
+        return z3.Q(x.q.numerator, x.q.denominator)
     raise Unsupported(f"cannot coerce {type(x).__name__} to Real")
 
 
